@@ -118,7 +118,7 @@ CloseCalls(endFail) == [c \in 1..(IF endFail = 0 THEN NChecks ELSE endFail) |-> 
 Log(s) == IF LogCalls THEN s ELSE <<>>
 
 (* ----------------- denotation: one run on a freshly loaded CID ----------------- *)
-InWindow(limit, i) == i > Header /\ (limit = None \/ i <= limit[1])
+InWindow(limit, i) == i > Header /\ (IF limit = None THEN TRUE ELSE i <= limit[1])
 ItemRow(i) == <<"row", i>>
 ItemErr(e) == <<"err", e.line, e.cell, e.cls, e.by, e.see>>
 
